@@ -83,6 +83,17 @@ def d_ellipsis():
     >>> print('a b')
     ab
     """
+def d_same_off():
+    """
+    >>> # xdoctest: -ELLIPSIS
+    >>> print("'hello world'")
+    hello ...
+    """
+def d_same_on():
+    """
+    >>> print("'hello world'")
+    hello ...
+    """
 def d_report():
     """
     >>> # xdoctest: -REPORT_NDIFF
